@@ -212,15 +212,24 @@ def run_history(py7zr, hist, workdir, *, target="path", filters_by_session=None,
             before_failed = {x: counter.tries.get(x, 0) for x in failed}
             exc = "none"
             try:
+                # "its arguments are rejected": a climbing or absolute name, a name or content of a type the call does not take
+                bad = c % 4 if fault == "badname" else -1
                 if k == "writestr":
-                    z.writestr(data, "../" + nm if fault == "badname" else nm)
+                    if bad == 2:
+                        z.writestr(len(data), nm)
+                    elif bad == 3:
+                        z.writestr(data, None)
+                    else:
+                        z.writestr(data, ["../" + nm, "/abs/" + nm][bad] if bad >= 0 else nm)
+                elif k == "writef" and bad >= 2:
+                    z.writef(io.StringIO("text, not bytes") if bad == 2 else data, nm)
                 elif k == "writef":
                     if fault == "read":
                         after = 0 if read_kmode == "zero" else len(data) // 2
                         src = FaultyStream(data, after, counter, c)
                     else:
                         src = FaultyStream(data, None, counter, c)
-                    z.writef(src, "../" + nm if fault == "badname" else nm)
+                    z.writef(src, ["../" + nm, "/abs/" + nm][bad] if bad >= 0 else nm)
                 elif k == "writedir":
                     p = os.path.join(workdir, f"dir_{c}")
                     if fault != "missing":
